@@ -253,7 +253,27 @@ def check_parsers(case):
             return Fail(f'parser-raises/{tag}/{type(got).__name__}', f'{name}: {exc_sig(got)}: {got!r} n={n} keys={sorted(mapping)[:4]}')
         if got != exp:
             return Fail(f'parser-result-differs/{tag}', f'{name}: n={n} expected {sorted(exp.items())[:5]} got {sorted(got.items())[:5] if isinstance(got, dict) else got!r}')
+    # a map READ from any valid encoding and written again is the canonical tree of that map (whatever label kinds the source used)
+    if exp:
+        try:
+            canon = refdict.build({format(k, '0%db' % n): (format(v, '016b'), []) for k, v in exp.items()}, n)
+        except rc.RefCellError:
+            canon = None
+        if canon is not None:
+            for how, mk in (('from_cell', lambda: HashMap.from_cell(cell, n).serialize()),
+                            ('from_cell+value_serializer', lambda: _reser(HashMap.from_cell(cell, n))),
+                            ('parsed-dict-into-new-HashMap', lambda: HashMap(n, map_=dict(HashMap.parse(cell.begin_parse(), n, None, des))).with_uint_values(16).serialize())):
+                ok, c2 = call(mk)
+                if not ok:
+                    return Fail(f'reserialize-parsed-map-raises/{how}/{type(c2).__name__}', f'{exc_sig(c2)}: {c2!r} n={n}')
+                if c2 is None or c2.hash != canon.repr_hash():
+                    return Fail(f'reserialized-parsed-map-not-canonical/{how}/{tag}', f'n={n} keys={sorted(exp)[:5]}')
     return None
+
+
+def _reser(hm):
+    hm.value_serializer = lambda src, dest: dest.store_slice(src)
+    return hm.serialize()
 
 
 def check_aug(case):
